@@ -1207,6 +1207,11 @@ def run_C18(prop, tier, seed, rep):
         rep.violation("impl-vs-property", ["# derive probe crashed rc=%s" % rc], "derived Trace impl made the probe crash after `%s`" % (lines[-1] if lines else "-"), True,
                       signature="derive-crash")
         return {"extra_evaluations": len(lines)}
+    unguarded = [l for l in out.splitlines() if l.startswith("dguard ")]
+    if unguarded:
+        rep.violation("impl-vs-property", ["# " + x for x in unguarded[:20]] + ["# definitions: harness/src/derive_gen.rs (seed %d)" % seed],
+                      "derive(Trace) without unsafe_no_drop emitted no Drop impl for %d generated types (needs_drop::<T>() is false), e.g. `%s`" % (
+                          len(unguarded), unguarded[0]), True, signature="derive-noguard")
     p = subprocess.run([corr.DRIVER, "shapes"], input=model_lines, capture_output=True, text=True, timeout=300)
     exp = p.stdout.splitlines()
     mism = [(a, b) for a, b in zip(lines, exp) if a != b]
@@ -1224,6 +1229,15 @@ def run_C18(prop, tier, seed, rep):
     return cov
 
 
+# shapes whose derive(Trace) must come with a Drop impl too (a user Drop next to it is error E0119)
+BAD_SHAPES = [("BadUnit", "struct BadUnit;"), ("BadTuple", "struct BadTuple(Cc<u32>, u8);"), ("BadEmpty", "struct BadEmpty {}"),
+              ("BadCLike", "enum BadCLike { A, B, C }"), ("BadOneUnit", "enum BadOneUnit { Only }"),
+              ("BadUnitIgn", "enum BadUnitIgn { Empty, #[rust_cc(ignore)] Full(Cc<u32>) }"),
+              ("BadAllIgn", "enum BadAllIgn { #[rust_cc(ignore)] A(Cc<u32>), #[rust_cc(ignore)] B { x: Cc<u32> } }"),
+              ("BadIgnField", "struct BadIgnField { #[rust_cc(ignore)] a: Cc<u32> }"),
+              ("BadMixed", "enum BadMixed { A(Cc<u32>), B, C { y: u8 } }")]
+
+
 def derive_drop_probe(rep):
     d = os.path.join(WORK, "derive_fail")
     os.makedirs(os.path.join(d, "src"), exist_ok=True)
@@ -1235,17 +1249,21 @@ def derive_drop_probe(rep):
     open(os.path.join(d, "src", "lib.rs"), "w").write(
         "use rust_cc::*;\n#[cfg(feature = \"bad\")]\n#[derive(Trace, Finalize)]\npub struct Bad { a: Cc<u32> }\n"
         "#[cfg(feature = \"bad\")]\nimpl Drop for Bad { fn drop(&mut self) {} }\n"
+        + "".join("#[cfg(feature = \"bad\")]\n#[derive(Trace, Finalize)]\n#[allow(dead_code)]\npub %s\n#[cfg(feature = \"bad\")]\nimpl Drop for %s { fn drop(&mut self) {} }\n" % (decl, nm)
+                  for nm, decl in BAD_SHAPES) +
         "#[derive(Trace, Finalize)]\n#[rust_cc(unsafe_no_drop)]\npub struct Good { a: Cc<u32> }\nimpl Drop for Good { fn drop(&mut self) {} }\n"
         "#[derive(Trace, Finalize)]\n#[rust_cc(unsafe_no_drop)]\n#[allow(dead_code)]\n#[doc = \"d\"]\npub struct Good2 { a: Cc<u32> }\nimpl Drop for Good2 { fn drop(&mut self) {} }\n"
         "#[derive(Trace, Finalize)]\n#[allow(dead_code)]\n#[rust_cc(unsafe_no_drop)]\npub enum Good3 { A(Cc<u32>), B }\nimpl Drop for Good3 { fn drop(&mut self) {} }\n")
     rc_good, out_good = sh(["cargo", "build", "--offline"], cwd=d, timeout=1200)
     rc_bad, out_bad = sh(["cargo", "build", "--offline", "--features", "bad"], cwd=d, timeout=1200)
-    res = {"drop_conflict_rejected": rc_bad != 0 and "E0119" in out_bad, "unsafe_no_drop_accepted": rc_good == 0}
+    accepted = [nm for nm, _ in [("Bad", "")] + BAD_SHAPES if not re.search(r"E0119[^\n]*`Drop` for type `%s[`<]" % nm, out_bad)]
+    res = {"drop_conflict_rejected": rc_bad != 0 and "E0119" in out_bad and not accepted, "unsafe_no_drop_accepted": rc_good == 0,
+           "drop_conflict_shapes": 1 + len(BAD_SHAPES), "drop_conflict_accepted": accepted}
     if rc_good != 0:
         rep.violation("impl-vs-property", ["# " + x for x in out_good.splitlines()[-15:]], "a type with #[rust_cc(unsafe_no_drop)] and its own Drop no longer compiles", True,
                       signature="derive-nodrop")
     if not res["drop_conflict_rejected"]:
-        rep.violation("impl-vs-property", ["# derive(Trace) + user Drop compiled without error E0119", "# " + out_bad[-300:].replace("\n", " | ")],
+        rep.violation("impl-vs-property", ["# derive(Trace) + user Drop compiled without error E0119 for: %s" % (", ".join(accepted) or "-"), "# " + out_bad[-300:].replace("\n", " | ")],
                       "a user-written Drop on a derive(Trace) type (without unsafe_no_drop) is no longer a compile error", True, signature="derive-drop")
     return res
 
